@@ -105,6 +105,12 @@ type c25exec struct {
 	pending []pendingPref // transitions whose only problem is "expiration also due"
 	callCtx context.Context // ctx of the reconciler call being intercepted (may carry its transaction)
 
+	// layout of the last complete version listing the harness read (syncCheck):
+	// keys whose rows lie on both sides of a 1000-row page boundary -> shape
+	straddle   map[string]string
+	listedRows int
+	filled     bool
+
 	discard string // non-empty: scenario unusable (reason)
 	fired   []string
 	actions []c25action
@@ -364,6 +370,8 @@ func (x *c25exec) step(i int, s stepSpec) {
 			return
 		}
 		x.m.Versioning = s.State
+	case "fill":
+		x.fill(i, s)
 	case "age":
 		d := time.Duration(s.Days) * 24 * time.Hour
 		if err := ageBucket(ctx, x.env.DB, x.bucket.String(), d); err != nil {
@@ -414,16 +422,17 @@ func ageBucket(ctx context.Context, db database.Database, bucket string, d time.
 // means model and pithos disagree about the *state* (not about the reconciler's
 // decisions); such a scenario is set aside, not judged.
 func (x *c25exec) syncCheck() string {
-	res, err := x.inner.ListObjectVersions(x.ctx, x.bucket, storage.ListObjectVersionsOptions{MaxKeys: 1000})
+	all, err := x.listAll()
 	if err != nil {
 		return "list-failed:" + err.Error()
 	}
+	x.noteListingLayout(all)
 	type st struct {
 		marker, latest bool
 		class          string
 	}
 	real := map[string]st{}
-	for _, v := range res.Versions {
+	for _, v := range all {
 		id := v.VersionID
 		if id == "" {
 			id = "null"
@@ -597,6 +606,15 @@ func (x *c25exec) record(act c25action, before any, extra map[string]any) {
 		x.pending = append(x.pending, pendingPref{act: act, before: before, at: len(x.actions) - 1})
 		return
 	}
+	if strings.Contains(v.Sig, ":filter-tag:") && v.Best != nil && v.Best.Rule < len(x.sc.Rules) {
+		// name the kind of tag mismatch the reconciler let through
+		if mv, _ := x.m.find(act.Key, act.Version); mv != nil {
+			if d := x.sc.Rules[v.Best.Rule].tagMiss(mv.Tags); d != "" {
+				v.Sig += ":" + d
+				act.Verdict.Sig = v.Sig
+			}
+		}
+	}
 	what := fmt.Sprintf("%s on %s %s at injected now=%s is not permitted by the reference lifecycle evaluation", act.Call, act.Key, act.Version, x.now.Format(time.RFC3339Nano))
 	x.violation(v.Sig, what, act, before, extra)
 }
@@ -679,6 +697,11 @@ func (s *recStorage) foreign(b storage.BucketName, call string) bool {
 
 func (s *recStorage) ListObjects(ctx context.Context, b storage.BucketName, o storage.ListObjectsOptions) (*storage.ListBucketResult, error) {
 	s.x.r.Count("reconciler.calls.ListObjects", 1)
+	if o.StartAfter != nil {
+		// a follow-up page of the sweep that is already running, not a new listing
+		s.x.r.Count("reconciler.calls.ListObjects.follow-up-page", 1)
+		return s.Next.ListObjects(ctx, b, o)
+	}
 	// a fresh listing observes whatever was written before it: objects that
 	// were overwritten earlier in this pass are "listed" again from here on
 	for _, l := range s.x.m.Keys {
@@ -694,6 +717,9 @@ func (s *recStorage) ListObjectVersions(ctx context.Context, b storage.BucketNam
 	s.x.r.Count("reconciler.calls.ListObjectVersions", 1)
 	if o.KeyMarker == nil && b.String() == s.x.bucket.String() {
 		s.x.ev.freezeListing()
+	}
+	if o.KeyMarker != nil {
+		s.x.r.Count("reconciler.calls.ListObjectVersions.follow-up-page", 1)
 	}
 	return s.Next.ListObjectVersions(ctx, b, o)
 }
@@ -803,7 +829,19 @@ func (s *recStorage) DeleteObject(ctx context.Context, b storage.BucketName, key
 	}
 	act.Verdict = x.ev.judgeDeleteVersion(k, *vid, x.now)
 	keepCountSig(&act.Verdict, perturbed)
-	x.record(act, before, map[string]any{"lastmodified_order_differs_from_true_recency": perturbed})
+	extra := map[string]any{"lastmodified_order_differs_from_true_recency": perturbed}
+	if act.Call == "delete-marker" {
+		x.r.Count(fmt.Sprintf("actions.delete-marker.listing-pages.%d", (x.listedRows+c25Page-1)/c25Page), 1)
+		if shape, ok := x.straddle[k]; ok {
+			x.r.Count("actions.delete-marker.key-history-straddles-listing-page", 1)
+			extra["key_rows_straddle_listing_page_boundary"] = shape
+			extra["listing_rows"] = x.listedRows
+			if !act.Verdict.OK && strings.Contains(act.Verdict.Sig, "not-sole-version") {
+				act.Verdict.Sig += ":history-straddles-listing-page"
+			}
+		}
+	}
+	x.record(act, before, extra)
 	x.m.applyVersionDelete(k, *vid)
 	return res, err
 }
@@ -928,6 +966,44 @@ type reconcileOncer interface {
 	ReconcileOnce(ctx context.Context, cancel *atomic.Bool)
 }
 
+// observeBeforePass counts what the pass about to run can exercise (evidence
+// only): listing layout, and objects next to empty-valued filter tags.
+func (x *c25exec) observeBeforePass() {
+	if x.listedRows > c25Page {
+		x.r.Count("paged.passes", 1)
+		for _, shape := range x.straddle {
+			x.r.Count("paged.passes.key-history-straddles-listing-page", 1)
+			x.r.Count("paged.passes.straddle."+shape, 1)
+		}
+	}
+	for i := range x.sc.Rules {
+		rule := &x.sc.Rules[i]
+		if !rule.Enabled {
+			continue
+		}
+		for _, t := range rule.tagPreds() {
+			if t.V != "" {
+				continue
+			}
+			for k, l := range x.m.Keys {
+				if !strings.HasPrefix(k, rule.prefix()) {
+					continue
+				}
+				for _, v := range l {
+					if v.Marker {
+						continue
+					}
+					if val, ok := v.Tags[t.K]; !ok {
+						x.r.Count("observations.versions-lacking-the-key-of-an-empty-valued-filter-tag", 1)
+					} else if val == "" {
+						x.r.Count("observations.versions-carrying-an-empty-valued-filter-tag", 1)
+					}
+				}
+			}
+		}
+	}
+}
+
 func offsetOf(off string) time.Duration {
 	switch off {
 	case "-1ns":
@@ -1045,6 +1121,7 @@ func runC25Scenario(r *vkit.Run, env *vkit.Env, inner storage.Storage, sc c25Sce
 			}
 		}
 		nBefore := len(x.actions)
+		x.observeBeforePass()
 		ro.ReconcileOnce(ctx, nil)
 		x.settlePreferences()
 		r.Count("passes", 1)
@@ -1078,7 +1155,7 @@ func runC25Scenario(r *vkit.Run, env *vkit.Env, inner storage.Storage, sc c25Sce
 
 func runC25(tier, replay string) {
 	r := vkit.Begin("C25", "exploration", tier)
-	r.SetRule("scenario = generated rule set (1-3 S3-valid rules: legacy prefix / prefix / tag / size / And filters, Expiration Days 1-3 or Date, ExpiredObjectDeleteMarker, transitions to 1-2 classes with Days 0-3 or Date, noncurrent expiration/transition days 1-3 with NewerNoncurrentVersions 1-3, abort-incomplete days, enabled/disabled) x generated history on 1-3 keys (puts with sizes around the size thresholds / tag sets / classes, delete markers, version deletes, (un)tagging and user transitions of old versions, incomplete uploads, versioning off/enabled/suspended, ageing by whole days) x 3 reconcile passes whose injected clock is placed relative to a due instant computed by the reference (due-1ns, due, due+1ns, +-13h, +-400d), two of them optionally with the key overwritten (identical / different content) between listing and action. distinct = distinct (rule-clause kinds, filter kinds, history op string, clock offsets) tuples")
+	r.SetRule("scenario = generated rule set (1-3 S3-valid rules: legacy prefix / prefix / tag / size / And filters, Expiration Days 1-3 or Date, ExpiredObjectDeleteMarker, transitions to 1-2 classes with Days 0-3 or Date, noncurrent expiration/transition days 1-3 with NewerNoncurrentVersions 1-3, abort-incomplete days, enabled/disabled) x generated history on 1-3 keys (puts with sizes around the size thresholds / tag sets / classes, delete markers, version deletes, (un)tagging and user transitions of old versions, incomplete uploads, versioning off/enabled/suspended, ageing by whole days) x 3 reconcile passes whose injected clock is placed relative to a due instant computed by the reference (due-1ns, due, due+1ns, +-13h, +-400d), two of them optionally with the key overwritten (identical / different content) between listing and action; plus 'tagedge' scenarios (every rule filtered by 1-3 tag predicates, many with EMPTY values, objects untagged / carrying the tag with an empty or another value / carrying one of two filter tags / the key in another case) and 'paged' scenarios (versioned bucket padded with 2000+ rows of filler keys with their own 1-3 row histories so that every reconciler listing spans several pages; the scenario keys - current delete marker over older versions, sole delete marker, marker over older marker - are placed so that 0..all of their rows stay on the page ending at a multiple of 1000; ExpiredObjectDeleteMarker rule with each spelling of the empty prefix). distinct = distinct (rule-clause kinds, filter kinds, history op string, clock offsets) tuples")
 	r.Assume("reference = independent re-implementation of S3 lifecycle semantics (day-based instants round up to the next midnight UTC; noncurrent age counts from the successor's creation; NewerNoncurrentVersions counts noncurrent versions incl. delete markers (permissive reading); an expired object delete marker is a current delete marker that is the only version of its key; expiration beats transition)")
 	r.Assume("creation instants are the LastModified values pithos stored, each verified to lie inside the harness' wall-clock bracket of the creating call and on the run day; ageing is simulated by shifting created_at/updated_at of the bucket's object rows back by whole days through SQL (rows are exactly what an earlier write would have left)")
 	r.Assume("safety only: actions the reconciler does NOT take are never judged; scenarios whose model and storage disagree about the state before a pass (other properties' territory) are set aside and counted")
@@ -1126,7 +1203,19 @@ func runC25(tier, replay string) {
 		finishReplay(r, ok)
 	}
 
-	n := r.N(480, 12000)
+	nBase := r.N(480, 12000)
+	nTag := r.N(64, 1600)  // extra "tagedge" scenarios
+	nPaged := r.N(8, 64)   // extra "paged" scenarios (each builds a bucket of 2000+ versions)
+	n := nBase + nTag + nPaged
+	extraOf := func(i int) string {
+		switch {
+		case i < nBase:
+			return ""
+		case i < nBase+nTag:
+			return "tagedge"
+		}
+		return "paged"
+	}
 	workers := r.N(4, 8)
 	const perEnv = 20
 	var wg sync.WaitGroup
@@ -1167,7 +1256,7 @@ func runC25(tier, replay string) {
 					inEnv = 0
 				}
 				inEnv++
-				sc := genScenario(root, i)
+				sc := genScenario(root, i, extraOf(i))
 				x := runC25Scenario(r, env, inner, sc, fmt.Sprintf("c25-%d", i))
 				mu.Lock()
 				if x.discard != "" {
@@ -1185,7 +1274,10 @@ func runC25(tier, replay string) {
 				mu.Unlock()
 				if x.discard == "" {
 					r.Eval(sc.shape())
-					if i < 3 {
+					if sc.Flavour != "" {
+						r.Count("scenarios.judged."+sc.Flavour, 1)
+					}
+					if i < 3 || i == nBase || i == nBase+nTag {
 						r.Sample(map[string]any{"scenario": sc, "actions": x.actions})
 					} else if len(x.actions) > 0 && i%37 == 0 {
 						r.Sample(map[string]any{"scenario": sc, "actions": x.actions})
@@ -1218,6 +1310,15 @@ func runC25(tier, replay string) {
 		if r.Counter("actions."+kind) == 0 {
 			r.Inconclusive("no " + kind + " action was ever observed")
 		}
+	}
+	if r.Counter("observations.versions-lacking-the-key-of-an-empty-valued-filter-tag") == 0 || r.Counter("observations.versions-carrying-an-empty-valued-filter-tag") == 0 {
+		r.Inconclusive("no pass ever saw an enabled rule with an empty-valued filter tag next to objects with and without that tag")
+	}
+	if r.Counter("scenarios.judged.paged") == 0 || r.Counter("reconciler.calls.ListObjectVersions.follow-up-page") == 0 || r.Counter("reconciler.calls.ListObjects.follow-up-page") == 0 {
+		r.Inconclusive("the reconciler never had to fetch a follow-up listing page")
+	}
+	if r.Counter("paged.passes.key-history-straddles-listing-page") == 0 || r.Counter("paged.passes.straddle.current-delete-marker-ends-page") == 0 {
+		r.Inconclusive("no reconcile pass ran on a bucket in which a key's version history lay on both sides of a listing page boundary")
 	}
 	if r.Counter("replaced-after-listing.identical") == 0 || r.Counter("replaced-after-listing.different") == 0 {
 		r.Inconclusive("the replaced-after-listing double never fired in both modes")
